@@ -108,7 +108,8 @@ JudgeChan(cid, steps, i, s, want) ==
   IF i > Len(steps) THEN {}
   ELSE LET o == steps[i]  a == o.a IN
     IF ~Enabled(s, a)
-    THEN (IF o.ret = "noreq" THEN JudgeChan(cid, steps, i + 1, s, want) ELSE {Row(cid, o.id, o, "script")})   \* ending a request that is not running: no-op
+    THEN (IF o.ret = "noreq" THEN {} ELSE {Row(cid, o.id, o, "conf")})      \* ending a request that is not running: no-op; running although the model says not: drift
+         \cup JudgeChan(cid, steps, i + 1, s, want)
     ELSE
       LET e == StepX(s, a)
           want2 == CASE a.op = "UseStore" -> want \cup {a.c} [] a.op = "Cleanup" -> want \ {a.c} [] OTHER -> want
